@@ -984,7 +984,36 @@ func vkInnerOf(g *vkRng) VKInner {
 	return VKInner{Key: g.str(vkStrings), Inner2: vkNestedOf(g)}
 }
 
+// a linear chain of messages, deep enough for key paths of a dozen segments (fixed-size path buffers,
+// depth limits)
+type vkDeep struct {
+	Next  *vkDeep
+	Name  string
+	Items []*vkDeep
+}
+
+func vkDeepOf(g *vkRng, depth int) *vkDeep {
+	if depth == 0 {
+		return nil
+	}
+	d := &vkDeep{Name: "n" + strconv.Itoa(depth), Next: vkDeepOf(g, depth-1)}
+	if g.pct(25) {
+		d.Items = []*vkDeep{{Name: "i" + strconv.Itoa(depth)}}
+	}
+	return d
+}
+
+func vkDeepLocs() []string {
+	var out []string
+	for _, k := range []int{6, 7, 8, 9, 10, 12, 15} {
+		p := strings.Repeat("next.", k)
+		out = append(out, p+"name", p+"name.x", p+"items.name", strings.TrimSuffix(p, "."))
+	}
+	return out
+}
+
 var vkFixtures = []vkFixture{
+	{"deep", func(g *vkRng) interface{} { return vkDeepOf(g, []int{7, 9, 10, 11, 13, 16}[g.intn(6)]) }, vkDeepLocs()},
 	{"msg", func(g *vkRng) interface{} { return vkMsgOf(g) },
 		[]string{"key", "nestedField.key", "repeatedField.key", "repeatedField.repeatedString", "repeatedString", "repeatedInt", "nestedField.repeatedString", "nestedField"}},
 	{"msgval", func(g *vkRng) interface{} { return *vkMsgOf(g) }, []string{"key", "repeatedField.key"}},
